@@ -560,7 +560,23 @@ pub fn wrath_two_step(rep: &mut Rep, k: [u8; 40], seed: u64, headers: usize) {
                 }
                 trace.push("attempt,halfclone".into());
             }
-            _ => trace.push("attempt".into()),
+            _ => {
+                // the sending direction of the same objects, and another connection on this thread, are used in between
+                for r in reps.iter_mut() {
+                    match r {
+                        R::Whole(w) => {
+                            let _ = w.encrypt_client_header(6, 0x1dc);
+                        }
+                        R::Halves(e, _) => {
+                            let _ = e.encrypt_client_header(6, 0x1dc);
+                        }
+                    }
+                }
+                let (mut oc, mut os) = objs::wrath_pair([0x33; 40]);
+                let w3 = os.encrypt_server_header(0x654321, 9).to_vec();
+                let _ = oc.attempt_decrypt_server_header([w3[0], w3[1], w3[2], w3[3]]);
+                trace.push("attempt,other_use".into());
+            }
         }
         for (ri, r) in reps.iter_mut().enumerate() {
             rep.ev(1);
@@ -591,6 +607,95 @@ pub fn wrath_two_step(rep: &mut Rep, k: [u8; 40], seed: u64, headers: usize) {
         rep.cell(&[55, trace.last().map(|t| t.len()).unwrap_or(0) as u64]);
     }
     rep.count("two_step_histories", 1);
+}
+
+/// One object is handed from thread to thread between segments of its traffic (and a clone stays behind on the old thread).
+pub fn migrating<W: Whole>(rep: &mut Rep, k: [u8; 40], seed: u64, hops: usize) {
+    let replay = format!("migrate {} {} {} {}", W::NAME, hex(&k), seed, hops);
+    let (mut obj, mut m_enc, mut m_peer) = W::make(k);
+    let mut rng = Rng::new(seed, 0x126);
+    for hop in 0..hops {
+        let mut r2 = Rng::new(rng.next(), hop as u64);
+        let left_behind = obj.clone();
+        let h = std::thread::spawn(move || {
+            let mut bad: Option<String> = None;
+            for i in 0..6 {
+                let len = r2.below(40) as usize;
+                let plain = r2.bytes(len);
+                if r2.chance(1, 2) {
+                    let mut want = plain.clone();
+                    m_enc.enc(&mut want);
+                    let mut got = plain;
+                    obj.enc(&mut got);
+                    if got != want && bad.is_none() {
+                        bad = Some(format!("encrypt op {} after hop", i));
+                    }
+                } else {
+                    let mut wire = plain.clone();
+                    m_peer.enc(&mut wire);
+                    obj.dec(&mut wire);
+                    if wire != plain && bad.is_none() {
+                        bad = Some(format!("decrypt op {} after hop", i));
+                    }
+                }
+            }
+            (obj, m_enc, m_peer, bad)
+        });
+        // the clone left on this thread is used and dropped meanwhile
+        let mut lb = left_behind;
+        let mut junk = rng.bytes(9);
+        lb.enc(&mut junk);
+        drop(lb);
+        match h.join() {
+            Ok((o, a, b, bad)) => {
+                obj = o;
+                m_enc = a;
+                m_peer = b;
+                rep.ev(1);
+                if let Some(what) = bad {
+                    rep.violation(
+                        &format!("c12:{}:object_moved_between_threads", W::NAME),
+                        format!("hop {}: {} differs from the per-direction model after the object moved to another thread", hop, what),
+                        replay,
+                    );
+                    return;
+                }
+            }
+            Err(_) => {
+                rep.violation(&format!("c12:{}:panic:migrating", W::NAME), "a thread using a moved object panicked".into(), replay);
+                return;
+            }
+        }
+    }
+    rep.count("migrations", hops as u64);
+    rep.cell(&[56, W::NAME.len() as u64]);
+}
+
+/// A half created at the start is kept alive and must never pair with the halves of the very many objects with other
+/// session keys that the process creates afterwards.
+pub fn old_half_sweep(rep: &mut Rep, rng: &mut Rng, objects: usize) {
+    let k0: [u8; 40] = rng.arr();
+    let (old_e, old_d) = objs::vanilla_pair(k0).0.split();
+    let mut bad = 0u64;
+    for i in 0..objects {
+        let k: [u8; 40] = rng.arr();
+        let (c, s) = objs::vanilla_pair(k);
+        let (e1, d1) = c.split();
+        let (e2, d2) = s.split();
+        if old_e.is_pair_of(&d1) || old_e.is_pair_of(&d2) || old_d.is_pair_of(&e1) || old_d.is_pair_of(&e2) {
+            bad += 1;
+            if bad == 1 {
+                rep.violation(
+                    "c12:vanilla:unsplit_accepts_different_keys:old_half_vs_later_object",
+                    format!("a half created earlier in the process pairs with the halves of object number {} created later although the session keys differ", i),
+                    format!("oldhalf {}", objects),
+                );
+            }
+        }
+    }
+    rep.ev(objects as u64);
+    rep.count("objects_tested_against_an_old_half", 2 * objects as u64);
+    rep.cell(&[57, 0]);
 }
 
 pub fn unsplit_pairs(rep: &mut Rep, rng: &mut Rng) {
@@ -715,6 +820,9 @@ yields compared with the models. distinct = op-kind 3-grams per expansion + unsp
                 unsplit_pairs(&mut rep, &mut rng);
             }
         }
+        if tier != "miri" {
+            old_half_sweep(&mut rep, &mut rng, if tier == "quick" { 6000 } else { 60_000 });
+        }
         rep
     });
     total.merge(r);
@@ -731,6 +839,22 @@ yields compared with the models. distinct = op-kind 3-grams per expansion + unsp
             1 => threaded::<tbc_header::HeaderCrypto>(&mut rep, k, s, msgs, true),
             2 => threaded::<wrath_header::ClientCrypto>(&mut rep, k, s, msgs, true),
             _ => threaded::<wrath_header::ServerCrypto>(&mut rep, k, s, msgs, true),
+        }
+    }
+    let nmig = match tier {
+        "quick" => 400,
+        "thorough" => 8000,
+        _ => 1,
+    };
+    for i in 0..nmig {
+        let k: [u8; 40] = rng.arr();
+        let s = rng.next();
+        let hops = if tier == "miri" { 2 } else { 6 };
+        match if tier == "miri" { seed as usize % 2 } else { (i + seed as usize) % 4 } {
+            0 => migrating::<vanilla_header::HeaderCrypto>(&mut rep, k, s, hops),
+            1 => migrating::<tbc_header::HeaderCrypto>(&mut rep, k, s, hops),
+            2 => migrating::<wrath_header::ClientCrypto>(&mut rep, k, s, hops),
+            _ => migrating::<wrath_header::ServerCrypto>(&mut rep, k, s, hops),
         }
     }
     if tier == "miri" {
